@@ -56,6 +56,14 @@ class FrameFamily(SrvFamily):
                     pts = sorted(set(rng.randrange(1, n) for _ in range(rng.randint(1, 6)))) if n > 1 else []
                     segs = [full[2*a:2*b] for a, b in zip([0] + pts, pts + [n])]
                     L.append(f"{pre}m {'+'.join(segs)} f{nf} {h}{mode}")
+            # the body arrives in two deliveries and the next request is already queued behind the second one: the body read
+            # must stop at the end of the body (one segment at a time, so that the read really is in two pieces)
+            if len(body) >= 4:
+                nxt = vu.hdr(vu.GET_FEATURES, 1, 0)
+                hl = 24
+                for k in sorted(set([hl + 2, hl + len(body) // 2 // 2 * 2, n * 2 - 2])):
+                    if hl < k < 2 * n:
+                        L.append(f"{pre}m {full[:hl]}+{full[hl:k]}+{full[k:]}{nxt} f{nf} {h} seq | m - f0 h=ok,v=1")
             # cuts followed by close
             cuts = list(range(0, n)) if (thorough or n <= 40) else sorted(set([0, 1, 11, 12, 13, n - 1] + [rng.randrange(0, n) for _ in range(5)]))
             for c in cuts:
